@@ -588,7 +588,19 @@ fn dispatch(f: &[&str]) -> Option<String> {
             let fmt = parse_fmt(f[2])?;
             let v = parse_sval(f[7])?;
             let mut w = rw::ChunkWriter::new(0);
-            if f[4] != "-" {
+            // <k>: persistent failure once k bytes were accepted; o<k>: the same failure exactly ONCE (later calls are served);
+            // b<cap>: all-or-nothing sink of capacity cap (a buffer that does not fit is refused, smaller later ones would fit)
+            let mut extended = false;
+            if let Some(t) = f[4].strip_prefix('o') {
+                w.fail_at = Some(t.parse().ok()?);
+                w.fail_kind = kind_of(f[5].parse().ok()?);
+                w.one_shot = true;
+                extended = true;
+            } else if let Some(t) = f[4].strip_prefix('b') {
+                w.cap = Some(t.parse().ok()?);
+                w.fail_kind = kind_of(f[5].parse().ok()?);
+                extended = true;
+            } else if f[4] != "-" {
                 w.fail_at = Some(f[4].parse().ok()?);
                 w.fail_kind = kind_of(f[5].parse().ok()?);
             }
@@ -608,6 +620,9 @@ fn dispatch(f: &[&str]) -> Option<String> {
                 Err(e) if e.is_io() => format!("err Io {}", e.io_error_kind().map(kind_id).unwrap_or(0)),
                 Err(e) => format!("err {}", code_name(e)),
             };
+            if extended {
+                return Some(format!("{} {} after={} fired={}", hex(&w.accepted), tail, w.calls_after_failure, w.fired));
+            }
             Some(format!("{} {}", hex(&w.accepted), tail))
         }
         // ft d<16hex>,f<8hex>,... : ryu texts
